@@ -63,7 +63,7 @@ theorem utf8Ok_lvO (o : TraceOpts) : ∀ (t : Ty) (v : Val), Read.utf8Ok (lvO o 
     cases t with
     | prim p =>
       cases p with
-      | str => simp only [lvO, Read.utf8Ok]; exact Lemmas.C04Utf8.validUtf8_strBytes s
+      | str | strRef | cowStr => simp only [lvO, Read.utf8Ok]; exact Lemmas.C04Utf8.validUtf8_strBytes s
       | _ => simp [lvO, Read.utf8Ok]
     | _ => simp [lvO, Read.utf8Ok]
   | t, .some v => by
